@@ -2,6 +2,10 @@ INIT MC_Init
 NEXT Next
 CONSTANTS
   AeadC = 1
+  KdfC = 1
+  ExpMenu = "few"
+  SweepFrom = 0
+  SweepTo = 0
   Starts = "boundary"
   Menu = "full"
   BnKind = "leaf"
